@@ -49,7 +49,7 @@ impl<R: Read + Seek> ReadBox<&mut R> for DinfBox {
             // Get box header.
             let header = BoxHeader::read(reader)?;
             let BoxHeader { name, size: s } = header;
-            if s > size {
+            if s > size || s < HEADER_SIZE {
                 return Err(Error::InvalidData(
                     "dinf box contains a box with a larger size than it",
                 ));
@@ -161,7 +161,7 @@ impl<R: Read + Seek> ReadBox<&mut R> for DrefBox {
             // Get box header.
             let header = BoxHeader::read(reader)?;
             let BoxHeader { name, size: s } = header;
-            if s > size {
+            if s > size || s < HEADER_SIZE {
                 return Err(Error::InvalidData(
                     "dinf box contains a box with a larger size than it",
                 ));
